@@ -169,6 +169,28 @@ impl MemoryAreas {
   }
 }
 
+/// Verification hook (cfg(gb_dynarec_verif) only): a memory map with the given I/O block and no storage, for
+/// harnesses that replace the bus functions
+#[cfg(gb_dynarec_verif)]
+impl MemoryAreas {
+  pub fn verif_with_io(io: IO) -> Self {
+    Self {
+      rom: Vec::new().into_boxed_slice(),
+      cart_state: Box::new(NullCartState::new()),
+      video_ram: Vec::new().into_boxed_slice(),
+      cart_ram: Vec::new().into_boxed_slice(),
+      work_ram: Vec::new().into_boxed_slice(),
+      oam_ram: Vec::new().into_boxed_slice(),
+      high_ram: Vec::new().into_boxed_slice(),
+      vram_bank: 0,
+      wram_bank: 1,
+      io,
+      oam_dma: None,
+      rom_mapped: false,
+    }
+  }
+}
+
 impl Drop for MemoryAreas {
   fn drop(&mut self) {
     if !self.rom_mapped {
